@@ -303,6 +303,7 @@ func subHandshakeWriteFault() mon.Sub {
 				c.Count(1)
 				rec := xport.NewRec()
 				rec.FailAt = j
+				rec.Err = xport.FaultKinds[(c.I+j)%len(xport.FaultKinds)].Err
 				if mode == 1 {
 					rec.ShortN = 1
 				}
@@ -516,6 +517,9 @@ func subWriterFail() mon.Sub {
 					c.Count(1)
 					rec := xport.NewRec()
 					rec.FailAt, rec.ShortN = j, short
+					// (a failed write is a failed write whatever kind of error reports it)
+					fk := xport.FaultKinds[(c.I+j+short+1)%len(xport.FaultKinds)]
+					rec.Err = fk.Err
 					w := mk(rec)
 					feed := &wops.Feed{}
 					var trace []string
@@ -531,7 +535,7 @@ func subWriterFail() mon.Sub {
 						continue // the failing call index was not reached with this history (lengths depend on earlier errors)
 					}
 					callsAtFailure := j + 1
-					det := map[string]interface{}{"config": fmt.Sprintf("%+v", cfg), "ops": trace, "failing_dest_call": j, "short_write": short, "dest_calls_seen": len(rec.Calls)}
+					det := map[string]interface{}{"config": fmt.Sprintf("%+v", cfg), "ops": trace, "failing_dest_call": j, "short_write": short, "dest_calls_seen": len(rec.Calls), "error_kind": fk.Name, "error": fk.Err.Error()}
 					if len(rec.Calls) > callsAtFailure {
 						c.Fail("writer/sends-after-failure/history", fmt.Sprintf("destination call %d failed but %d more calls followed during the same history", j, len(rec.Calls)-callsAtFailure), det)
 						return
@@ -575,7 +579,7 @@ func subWriterFail() mon.Sub {
 							return
 						}
 					}
-					c.Classf("cfg=%v|fail=%d|short=%d|%s,%s", cfg, j, short, ops[0], ops[1])
+					c.Classf("cfg=%v|fail=%d|short=%d|%s|%s,%s", cfg, j, short, fk.Name, ops[0], ops[1])
 				}
 			}
 			if c.WantSample() {
@@ -599,7 +603,7 @@ func main() {
 		Level:    "fault_enumeration",
 		Rule: "fault enumeration: (a) every valid complete frame stream up to depth 3 (quick) / 4 (thorough) on both sides, cut at EVERY byte offset in three flavours (EOF, final data together with EOF, injected transport error) through Reader, Reader+ControlFrameHandler, Reader+Discard, ReadMessage, ReadData, Read*Text, Read*Binary and NextReader, plus random longer streams at 40 random offsets, plus three stream shapes with messages above 1 MiB cut at frame starts, header ends, the 1 MiB mark and payload ends; oracle = the uncut run of the same stream (events must be a prefix), the message-boundary set of the reference reassembly (clean EOF only there), control payloads never shortened (callbacks, collected messages, pongs on the wire); " +
 			"(a') the same streams (and random ones with payloads up to 70000 bytes, and frames of 1 MiB .. 2 MiB+5 cut around the header, the 1 MiB mark and the payload end) cut at every offset through the frame-level decoders: a ws.ReadFrame read-until-EOF loop and a ws.ReadHeader + exact payload read loop: frames returned are exactly the whole frames before the cut, io.EOF only on a frame boundary, an injected error never turns into io.EOF; " +
-			"(b) upgrade requests and 101 responses cut at every offset of the head in the three flavours: error, no 101, no buffer; every destination write call of the handshake (request or response, write buffers 16..default) failing as error / short write / sticky: error returned; (c) every writer history of depth 2 (quick) / 3 (thorough) over the 30-op alphabet + Flush for 4 configurations with the destination failing at every call index as plain error or short write (0/1/3 bytes) + error, then 7 follow-up operations (starting at a different one from case to case, so that each kind also comes first after the failure), then ResetOp (same destination) + Write/Write/Flush or Flush/FlushFragment/Write/Flush: each returns the error (ReadFrom's return is left open) and the destination sees no further call. distinct = (entry, cut frame kind/position, flavour, boundary, stream shape) / (config, failing call, mode, history).",
+			"(b) upgrade requests and 101 responses cut at every offset of the head in the three flavours: error, no 101, no buffer; every destination write call of the handshake (request or response, write buffers 16..default) failing as error / short write / sticky: error returned; (c) every writer history of depth 2 (quick) / 3 (thorough) over the 30-op alphabet + Flush for 4 configurations with the destination failing at every call index as error or short write (0/1/3 bytes) + error - eight kinds of error: plain, expired write deadline, net.Error timeout / temporary, io.ErrShortWrite, io.EOF, EPIPE, net.ErrClosed -, then 7 follow-up operations (starting at a different one from case to case, so that each kind also comes first after the failure), then ResetOp (same destination) + Write/Write/Flush or Flush/FlushFragment/Write/Flush: each returns the error (ReadFrom's return is left open) and the destination sees no further call. distinct = (entry, cut frame kind/position, flavour, boundary, stream shape) / (config, failing call, mode, history).",
 		Assumptions: []string{"the uncut run itself is checked by C04", "ReadFrom's return value after a failure is OPEN (the statement names writes and flushes); 'no further bytes' is enforced for it too"},
 		Subs:        []mon.Sub{subCutEnum(), subCutRandom(), subFrameCutEnum(), subFrameCutRandom(), subFrameCutLarge(), subReaderCutLarge(), subHandshakeCut(), subHandshakeWriteFault(), subWriterFail()},
 	})
